@@ -74,6 +74,17 @@ class Session:
         t, z, a, q, _, _ = self.py.info(self.py.results[h])
         return (t, z, a, q)
 
+    def check_unique(self):
+        """oracle: among everything returned in this session, one object per (table, Z, A, q)"""
+        seen = {}
+        for k, x in enumerate(self.py.results):
+            key = self.py.info(x)[:4]
+            first = seen.setdefault(key, (k, x))
+            if first[1] is not x:
+                self.failures.append((len(self.ops) - 1, "two different objects for one key",
+                                      "results %d and %d both report %r" % (first[0], k, key)))
+                break
+
     def finish_lines(self):
         return self.lines + ["info %d" % k for k in range(len(self.py.results))]
 
@@ -543,6 +554,7 @@ def run(run: Run) -> int:
     try:
         for private in (False, True):
             s = sweep_session(pt, base, private, run.tier, run.rng)
+            s.check_unique()
             s.py.cleanup()
             sessions.append(s)
         run_sessions(run, pt, sessions, "core-sweep")
@@ -552,6 +564,7 @@ def run(run: Run) -> int:
             batch = []
             for i in range(lo, min(n, lo + 500)):
                 s = random_session(run.rng, pt, base, i)
+                s.check_unique()
                 s.py.cleanup()
                 batch.append(s)
             run_sessions(run, pt, batch, "core-ops")
@@ -580,6 +593,7 @@ def replay(data) -> int:
                 ex = ("key", tuple(ex[1]))
             out = s.emit(op, ex)
             check_lists(s, op, out)
+        s.check_unique()
         print("operations:", len(ops), "last:", ops[-1], "->", s.outs[-1])
         pre, npre = public_preamble(pt)
         replies = run_driver("core", pre + ["rewind"] + s.finish_lines())[npre:]
